@@ -247,6 +247,8 @@ def gen_value(rng, t, env, mod, depth=3, size=3):
                 continue
             kw[fn] = gen_value(rng, ft, env, mod, depth - 1, size)
         return cls(**kw)
+    if k == "wrapref":
+        return gen_value(rng, t[1], env, mod, depth, size)
     if k in ("newtype", "alias"):
         return gen_value(rng, t[2], env, mod, depth, size)
     if k in ("final", "classvar"):
